@@ -3,4 +3,5 @@
 set -e
 cd "$(dirname "$0")/sim"
 export CARGO_NET_OFFLINE=true
+RUSTC_WRAPPER="$(pwd)/rustc-wrap.sh"; export RUSTC_WRAPPER
 exec cargo build --offline 2>&1
